@@ -251,7 +251,7 @@ class Environment:
                 else:
                     at = float(until)
 
-                if at <= self.now:
+                if not at > self.now:  # also refuses NaN
                     raise ValueError(
                         f'until(={at}) must be > the current simulation time.'
                     )
